@@ -33,6 +33,23 @@ SP_MENU = {1: [['q'], ['num'], ['wild'], ['opt'], ['q'], ['day']],
 MENUS = [ON_MENU, SP_MENU]
 FORMS = ['own', 'data', 'single', 'extra', 'renamed']
 PAST_ORD, FUTURE_ORD = 730120, 1094998      # 2000-01-01, 2999-01-01 as in MC_Perdictable.tla
+# the optional parameters of perdictable, as OptSeq of PerdictableSess.tla lists them (the last one = the defaults), and how
+# each abstract value is rendered
+OPTS = [{'oii': 'false', 'inc': False, 'ifnone': 'false'}, {'oii': 'name', 'inc': False, 'ifnone': 'true'},
+        {'oii': 'names', 'inc': True, 'ifnone': 'false'}, {'oii': 'col', 'inc': False, 'ifnone': 'col'},
+        {'oii': 'true', 'inc': True, 'ifnone': 'true'}, {'oii': 'false', 'inc': True, 'ifnone': 'col'},
+        {'oii': 'true', 'inc': False, 'ifnone': 'false'}]
+DEFAULT_OPTS = OPTS[-1]
+OII = {'true': lambda: True, 'false': lambda: False, 'name': lambda: 'something_else', 'names': lambda: ['something_else', 'other'],
+       'col': lambda: ['data']}
+IFNONE = {'false': lambda: False, 'true': lambda: True, 'col': lambda: ['data']}
+
+
+def opt_kwargs(opts):
+    """abstract optional parameters -> keyword arguments of perdictable (nothing at all for the defaults)"""
+    if opts == DEFAULT_OPTS:
+        return {}
+    return {'output_is_input': OII[opts['oii']](), 'include_inputs': bool(opts['inc']), 'if_none': IFNONE[opts['ifnone']]()}
 
 
 def on_of(c, form):
@@ -220,20 +237,18 @@ def project(res, on, names, api, form):
         return {'kind': 'empty'} if n == 0 else {'kind': 'ragged'}
     roles = ['#%d' % (p + 1) for p, col in enumerate(on) if col in cols]
     seen = [col for col in on if col in cols]
-    if api == 'run':
-        valcols = ['data'] if 'data' in cols else []
-        roles += ['#v'] if valcols else []
-    else:
-        valcols = [nm for nm in names if nm in cols]
-        roles += ['@%d' % (names.index(nm) + 1) for nm in valcols]
-    roles += sorted(col for col in cols if col not in seen and col not in valcols)
+    incols = [nm for nm in names if nm in cols]                       # join: the inputs; perdictable: only with include_inputs
+    roles += ['@%d' % (names.index(nm) + 1) for nm in incols]
+    valcols = ['data'] if (api == 'run' and 'data' in cols) else []
+    roles += ['#v'] if valcols else []
+    roles += sorted(col for col in cols if col not in seen and col not in valcols and col not in incols)
     rows = []
     for r in range(n):
         row = {'key': [unrender_key(col, lists[col][r], on.index(col), form) for col in seen]}
         if api == 'run':
             row['v'] = tag(lists['data'][r]) if valcols else ['o', 'missing']
-        else:
-            row['vals'] = [tag(lists[nm][r]) for nm in valcols]
+        if api != 'run' or incols:
+            row['vals'] = [tag(lists[nm][r]) for nm in incols]
         rows.append(row)
     return {'kind': 'table', 'cols': roles, 'rows': rows}
 
@@ -305,13 +320,14 @@ def observe_all(job):
             speller = speller if how == 0 else Speller(form, shift=how - 1)
     on, on_arg, inputs, renames, defaults, cache = render(c, form, rng, data_obj, speller)
     f, calls = make_f(len(names), sig(defaults))
+    opts = OPTS[form.get('opts', len(OPTS) - 1) % len(OPTS)]
     o = {'api': api, 'c': c, 'today': today, 'form': form, 'salt': job['salt'], 'chained': data_obj is not None,
-         'alpha': on == sorted(on)}          # `on` names the key columns in alphabetical order
+         'alpha': on == sorted(on), 'opts': opts}          # `on` names the key columns in alphabetical order
     if data_obj is not None:
         o['first'], o['plan'] = job['first'], job['plan']
     try:
         if api == 'run':
-            p = perdictable(f, on=on_arg, renames=renames or None, defaults=dargs(defaults))
+            p = perdictable(f, on=on_arg, renames=renames or None, defaults=dargs(defaults), **opt_kwargs(opts))
             res = p(**inputs, **cache)
         else:
             res = join(inputs, on_arg, renames or None, dargs(defaults))
@@ -343,9 +359,10 @@ def bag(xs):
     return sorted(json.dumps(x, sort_keys=True) for x in xs)
 
 
-def mk_form(rng, c, spelled=None, first=None):
+def mk_form(rng, c, spelled=None, first=None, inc_ok=True):
     """a rendering of configuration c (chained: of `first` and c): spelled = the key columns come from SP_MENU (several
-    spellings per key, NaN / None keys), by default for one form in five"""
+    spellings per key, NaN / None keys), by default for one form in five; opts = the optional parameters of the perdictable
+    (an index into OPTS; half of the renderings use the defaults; inc_ok: include_inputs may be drawn)"""
     n = len(c['ins'])
     form = {'on': rng.randrange(12), 'ins': [rng.randrange(len(FORMS)) for _ in range(n)],
             'data': rng.randrange(6), 'expiry': rng.randrange(6), 'defs': rng.randrange(2),
@@ -353,12 +370,14 @@ def mk_form(rng, c, spelled=None, first=None):
     form['menu'] = int(rng.random() < 0.2) if spelled is None else int(spelled)
     form['on'] = rng.randrange(24) if form['menu'] else form['on']
     form['spsalt'], form['respell'], form['dataorder'] = rng.randrange(1 << 20), rng.randrange(3), rng.randrange(3)
+    menu = [i for i, op in enumerate(OPTS) if inc_ok or not op['inc']]
+    form['opts'] = rng.choice(menu) if rng.random() < 0.5 else len(OPTS) - 1
     return with_extent(form, *([c] if first is None else [first, c]))
 
 
-def alpha_form(rng, c, keycols, spelled=False):
+def alpha_form(rng, c, keycols, spelled=False, inc_ok=True):
     """a rendering in which `on` is alphabetical with the given stored column order"""
-    form = mk_form(rng, c, spelled)
+    form = mk_form(rng, c, spelled, inc_ok=inc_ok)
     while on_of(c, form) != sorted(on_of(c, form)):
         form['on'] += 1
     form['keycols'] = keycols
@@ -421,12 +440,18 @@ def s2c(ctx, cases, label):
         for api in ('run', 'join'):
             if api == 'join' and (c['data']['kind'] != 'absent' or c['expiry']['kind'] != 'absent'):
                 continue
+            inc_ok = bool(case.get('run_inc'))                # TLC printed what include_inputs = True is to return
             if spelled_cfg(c):                                # tables that spell their keys differently: always key columns with spellings
-                forms = [mk_form(rng, c, True), mk_form(rng, c, True)]
+                forms = [mk_form(rng, c, True, inc_ok=inc_ok), mk_form(rng, c, True, inc_ok=inc_ok)]
             else:
-                forms = [mk_form(rng, c)]
+                forms = [mk_form(rng, c, inc_ok=inc_ok)]
             if nk == 2 and c['data']['kind'] == 'absent':     # where the order of `on` is pinned: stored column order with / against `on`
-                forms += [alpha_form(rng, c, 'reverse', spelled_cfg(c)), alpha_form(rng, c, 'same', spelled_cfg(c))]
+                forms += [alpha_form(rng, c, 'reverse', spelled_cfg(c), inc_ok), alpha_form(rng, c, 'same', spelled_cfg(c), inc_ok)]
+            if api == 'run' and c['data']['kind'] == 'keyed' and c['expiry']['kind'] != 'absent':
+                # previously computed values with expiries: one more rendering with optional parameters off their defaults
+                more = mk_form(rng, c, True if spelled_cfg(c) else None, inc_ok=inc_ok)
+                more['opts'] = rng.choice([i for i, op in enumerate(OPTS[:-1]) if inc_ok or not op['inc']])
+                forms.append(more)
             for form in forms:
                 jobs.append({'c': c, 'api': api, 'form': form, 'salt': rng.randrange(1 << 30)})
                 wants.append(case)
@@ -435,7 +460,7 @@ def s2c(ctx, cases, label):
     for o, case in zip(obs, wants):
         ctx.evals += 1
         if o['api'] == 'run':
-            accepted = case['run']['alpha' if o['alpha'] else 'other']
+            accepted = case['run_inc'] if o['opts']['inc'] else case['run']['alpha' if o['alpha'] else 'other']
             # the result by content, or (it is the very object passed as `data`) as that
             ok = (o['out'] in accepted or (o['same'] and {'kind': 'data'} in accepted)) and bag(o['calls']) == bag(case['calls'])
             want = {'one_of': accepted, 'calls': case['calls']}
@@ -620,9 +645,366 @@ def c2s(ctx, nconf):
                                                 and len(o['calls']) < len(o['out']['rows']))
 
 
+# ---- sessions on caller-owned tables (PerdictableSess.tla) -------------------------------------------------------
+ABSENT = {'kind': 'absent', 'rows': [], 'v': ["n", 0]}
+
+
+def role_of(col):
+    """a column / dict key named after a parameter of F is written by its position"""
+    return '@%d' % (NAMES.index(col) + 1) if col in NAMES else col
+
+
+def paycol(form, j):
+    return {'own': NAMES[j], 'data': 'data', 'single': 'v_' + NAMES[j], 'extra': NAMES[j], 'renamed': 'col_' + NAMES[j]}[form]
+
+
+class Session(object):
+    """the caller: his tables (the pool), the table the last perdictable call returned, and the on / renames / defaults /
+    perdictable objects he keeps and hands to every call that needs equal ones"""
+    def __init__(self, sess, form, salt):
+        from pyg_base import dictable
+        self.nk, self.form = sess['nk'], form
+        self.rng = random.Random(salt)
+        self.on = on_of({'nk': self.nk}, form)
+        self.on_arg = self.on[0] if (self.nk == 1 and form['on'] % 2 == 0) else list(self.on)
+        self.speller = Speller(form)
+        self.meta = [{'form': t['form'], 'ord': t['ord']} for t in sess['pool']]
+        self.pool = []
+        for j, t in enumerate(sess['pool']):
+            n = len(t['rows'])
+            extra = {paycol(t['form'], j): [untag(r['v']) for r in t['rows']]}
+            if t['form'] in ('extra', 'renamed'):
+                extra['noise'] = [0] * n
+            self.pool.append(make_table(self.on, t['rows'], extra, self.rng, t['ord'], self.speller))
+        self.last = None
+        self.kept = {}          # the caller's own argument objects, by what they hold
+        self.today = datetime.date.today().toordinal()
+
+    def keep(self, kind, key, make):
+        k = (kind, json.dumps(key, sort_keys=True))
+        if k not in self.kept:
+            self.kept[k] = make()
+        return self.kept[k]
+
+    def key_of(self, t, r):
+        cols = dict.keys(t)
+        return [unrender_key(col, dict.__getitem__(t, col)[r], p, self.form) if col in cols else -1 for p, col in enumerate(self.on)]
+
+    def read_table(self, j):
+        t = self.pool[j]
+        pc = paycol(self.meta[j]['form'], j)
+        cols = list(dict.keys(t))
+        n = len(t)
+        order = sorted(range(n), key=lambda r: self.key_of(t, r))
+        cells = lambda col: [tag(dict.__getitem__(t, col)[r]) for r in order]
+        pay = cells(pc) if pc in cols else [['o', 'missing']] * n
+        return {'rows': [{'key': self.key_of(t, r), 'sp': 0, 'v': v} for r, v in zip(order, pay)],
+                'others': {role_of(col): cells(col) for col in cols if col not in self.on and col != pc},
+                'form': self.meta[j]['form'], 'ord': self.meta[j]['ord']}
+
+    def read_pool(self):
+        return [self.read_table(j) for j in range(len(self.pool))]
+
+    def read_last(self):
+        t = self.last
+        if t is None:
+            return {'kind': 'none'}
+        cols = list(dict.keys(t))
+        order = sorted(range(len(t)), key=lambda r: self.key_of(t, r))
+        val = lambda r: tag(dict.__getitem__(t, 'data')[r]) if 'data' in cols else ['o', 'missing']
+        return {'kind': 'table', 'rows': [{'key': self.key_of(t, r), 'v': val(r)} for r in order]}
+
+    def read_statics(self, st):
+        out = {'on': list(st['on']) if isinstance(st['on'], list) else [st['on']],
+               'renames': {role_of(k): v for k, v in (st['renames'] or {}).items()},
+               'defaults': {role_of(k): tag(v) for k, v in (st['defaults'] or {}).items()}}
+        return out
+
+    def read_expiry(self, obj, x):
+        from pyg_base import dictable
+        if x['kind'] == 'absent':
+            return dict(x)
+        if x['kind'] == 'scalar':
+            return dict(x, v=tag(obj))
+        cols = list(dict.keys(obj))
+        col = x['cols'][0]
+        order = sorted(range(len(obj)), key=lambda r: self.key_of(obj, r))
+        return {'kind': 'keyed', 'v': ["n", 0], 'cols': sorted(c for c in cols if c not in self.on),
+                'rows': [{'key': self.key_of(obj, r), 'sp': 0, 'v': tag(dict.__getitem__(obj, col)[r]) if col in cols else ['o', 'missing']} for r in order]}
+
+    def edit(self, st):
+        if st['kind'] == 'editresult':
+            t = self.last
+            new = {json.dumps(r['key']): untag(r['v']) for r in st['rows']}
+            t['data'] = [new[json.dumps(self.key_of(t, r))] for r in range(len(t))]
+            return
+        j = st['obj'] - 1
+        t = self.pool[j]
+        if st['kind'] == 'subset':
+            keep = [json.dumps(k) for k in st['keep']]
+            self.pool[j] = t[[r for r in range(len(t)) if json.dumps(self.key_of(t, r)) in keep]]
+            return
+        pc = paycol(self.meta[j]['form'], j)
+        new = {json.dumps(r['key']): untag(r['v']) for r in st['rows']}
+        vals = [new[json.dumps(self.key_of(t, r))] for r in range(len(t))]
+        if st['kind'] == 'setcol':
+            t[pc] = vals                          # the public column setter, in place
+        else:
+            self.pool[j] = t(**{pc: vals})        # a new table made from the old one
+
+    def call(self, st):
+        """one public call on the caller's objects; returns what the observation of a call step adds"""
+        from pyg_base import perdictable, join
+        names = NAMES[:len(st['params'])]
+        inputs, scalars, renames, defaults = {}, {}, {}, {}
+        for i, (prm, d) in enumerate(zip(st['params'], st['defs'])):
+            nm = names[i]
+            if d:
+                defaults[nm] = untag(d[0])
+            if prm['kind'] == 'scalar':
+                inputs[nm] = scalars[i] = untag(prm['v'])
+            else:
+                j = prm['obj'] - 1
+                inputs[nm] = self.pool[j]
+                if self.meta[j]['form'] == 'renamed':
+                    renames[nm] = paycol('renamed', j)
+        ren = self.keep('renames', renames, lambda: dict(renames)) if renames else None
+        dfl = self.keep('defaults', {k: tag(v) for k, v in defaults.items()}, lambda: dict(defaults)) if (defaults or self.form['defs'] % 2) else None
+        statics = {'on': self.on_arg, 'renames': ren, 'defaults': dfl}
+        before = self.read_statics(statics)
+        cache = {}
+        x = st['expiry']
+        exp_obj = None
+        if st['cache'] == 'last':
+            cache['data'] = self.last
+        if x['kind'] == 'scalar':
+            exp_obj = cache['expiry'] = untag(x['v'])
+        elif x['kind'] == 'keyed':
+            exp_obj = cache['expiry'] = make_table(self.on, x['rows'], {x['cols'][0]: [untag(r['v']) for r in x['rows']]}, self.rng, speller=self.speller)
+        elif self.form['expiry'] % 3 == 1:
+            cache['expiry'] = None
+        add = {'statics': before}
+        calls = []
+        try:
+            if st['api'] == 'run':
+                def make():
+                    f, cs = make_f(len(names))
+                    return perdictable(f, on=self.on_arg, renames=ren, defaults=dfl, **opt_kwargs(st['opts'])), cs
+                # one perdictable object per (parameters, renames, defaults, options) for the whole session
+                pd, calls = self.keep('perdictable', [names, renames, {k: tag(v) for k, v in defaults.items()}, dfl is None, st['opts']], make)
+                del calls[:]
+                res = pd(**inputs, **cache)
+            else:
+                res = join(inputs, self.on_arg, ren, dfl)
+            add['out'] = project(res, self.on, names, st['api'], self.form)
+            add['same'] = res is not None and res is cache.get('data')
+        except Exception as e:
+            res = None
+            add['out'] = {'kind': 'exc', 'cls': type(e).__name__}
+            add['same'] = False
+        add['calls'] = [[tag(v) for v in args] for args in calls]
+        add['statics_after'] = self.read_statics(statics)
+        add['params_after'] = [{'kind': 'scalar', 'v': tag(scalars[i])} if prm['kind'] == 'scalar' else dict(prm) for i, prm in enumerate(st['params'])]
+        add['expiry_after'] = self.read_expiry(exp_obj, x)
+        return add, res
+
+
+def observe_session(job):
+    """replay one session step by step; one observation (api "step") per step, the pool / the last result / the caller's other
+    argument objects read through the public API before and after each step"""
+    from pyg_base import dictable
+    logging.getLogger('pyg').setLevel(logging.ERROR)
+    sess, form = job['sess'], job['form']
+    S = Session(sess, form, job['salt'])
+    obs = []
+    pool, last = S.read_pool(), S.read_last()
+    for n, h in enumerate(sess['hist']):
+        st = json.loads(json.dumps(h['step']))
+        # a randomly drawn session leaves to the moment of the step what depends on the table the last call returned
+        if st['kind'] == 'editresult' and st['rows'] == 'deal':
+            if S.last is None:
+                continue
+            st = {'kind': 'editresult', 'rows': [{'key': r['key'], 'v': st['v']} for r in last['rows']]}
+        if st['kind'] == 'call' and st['expiry'] == 'deal':
+            plan = st.pop('plan')
+            if S.last is None:
+                st.update(cache='none', expiry=dict(ABSENT))
+            else:
+                rows = [{'key': r['key'], 'sp': 0, 'v': EXPIRY_OF[w](S.today, i)} for i, r in enumerate(last['rows']) for w in [plan[i % len(plan)]] if w != 'absent']
+                st['expiry'] = {'kind': 'keyed', 'rows': rows, 'v': ["n", 0]} if rows else dict(ABSENT)
+        o = {'api': 'step', 'nk': S.nk, 'today': S.today, 'alpha': S.on == sorted(S.on), 'form': form, 'salt': job['salt'], 'sid': job.get('sid', 0),
+             'at': n + 1, 'pool': pool, 'last': last}
+        if st['kind'] == 'call':
+            if st['expiry']['kind'] == 'keyed':
+                st['expiry']['cols'] = ['expiry' if form['expiry'] % 2 == 0 else 'data']
+            add, res = S.call(st)
+            o.update(add)
+            o['last_after'] = S.read_last()             # the table handed in as `data` / returned earlier, read again
+            if st['api'] == 'run':
+                p = add['out']
+                ok = (isinstance(res, dictable) and p['kind'] == 'table' and not add['same']
+                      and len({json.dumps(r['key']) for r in p['rows']}) == len(p['rows']))
+                S.last = res if ok else None
+        else:
+            try:
+                S.edit(st)
+            except Exception as e:
+                o['edit_error'] = type(e).__name__
+            o['last_after'] = S.read_last()
+        o['step'] = st
+        o['pool_after'] = S.read_pool()
+        obs.append(o)
+        pool, last = o['pool_after'], S.read_last()
+    return obs
+
+
+def sess_form(rng, sess):
+    """a rendering of a session: key columns (one session in five on key columns with several spellings per key), how "absent" is spelt"""
+    form = {'on': rng.randrange(12), 'ins': [], 'data': 0, 'expiry': rng.randrange(6), 'defs': rng.randrange(2), 'sig': 0,
+            'menu': int(rng.random() < 0.2), 'spsalt': rng.randrange(1 << 20)}
+    form['on'] = rng.randrange(24) if form['menu'] else form['on']
+    keys = [r['key'] for t in sess['pool'] for r in t['rows']]
+    nk = sess['nk']
+    return dict(form, lo=[min(k[p] for k in keys) if keys else 0 for p in range(nk)], hi=[max(k[p] for k in keys) if keys else 0 for p in range(nk)])
+
+
+def pmap_sessions(jobs):
+    nproc = int(os.environ.get('VERIF_PY_WORKERS', min(16, os.cpu_count() or 1)))
+    if nproc <= 1 or len(jobs) < 200:
+        return [observe_session(j) for j in jobs]
+    import multiprocessing
+    with multiprocessing.get_context('fork').Pool(nproc) as pool:
+        return pool.map(observe_session, jobs, chunksize=max(1, min(200, len(jobs) // (4 * nproc))))
+
+
+def rand_session(rng):
+    """a longer session drawn at random: 2-3 tables over up to 6 keys, 4-7 steps.  Calls that hand the last result back as `data`
+    keep at least one table without default and deal expiries to the keys of that result only (the quantifier's domain)."""
+    nk = rng.choice([1, 1, 2])
+    if nk == 1:
+        universe = [[i] for i in sorted(rng.sample(range(0, 40), rng.choice([2, 4, 6])))]
+    else:
+        universe = [[x, y] for x in sorted(rng.sample(range(0, 20), 2)) for y in sorted(rng.sample(range(0, 20), rng.choice([2, 3])))]
+    vals = [["i", 0], ["i", 1], ["i", 7], ["n", 0], ["s", "u"], ["s", ""], ["f", [5, 2]], ["b", 1], ["l", [["i", 1]]], ["t", []]]
+    m = rng.choice([2, 2, 3])
+    pool = []
+    for j in range(m):
+        keys = [k for k in universe if j == 0 or rng.random() < 0.8]
+        pool.append({'form': rng.choice(['own', 'data', 'single', 'extra', 'renamed']), 'ord': rng.choice(['same', 'reverse', 'shuffle']),
+                     'rows': [{'key': k, 'sp': 0, 'v': rng.choice(vals)} for k in sorted(keys)], 'others': {}})
+    state = [[r['key'] for r in t['rows']] for t in pool]          # which keys each table holds (the caller knows what he did)
+    has_last = False
+    hist = []
+    for at in range(rng.choice([4, 5, 6, 7])):
+        kind = rng.choice(['call', 'call', 'call', 'setcol', 'derive', 'subset', 'editresult'])
+        if kind == 'editresult' and not has_last:
+            kind = 'call'
+        if kind == 'call':
+            n = rng.choice([1, 2, 2, 3, 4])
+            params, defs = [], []
+            for i in range(n):
+                cand = [j for j in range(m) if pool[j]['form'] != 'extra' or i == j]
+                if rng.random() < 0.2 or not cand:
+                    params.append({'kind': 'scalar', 'v': rng.choice(vals)})
+                else:
+                    params.append({'kind': 'table', 'obj': rng.choice(cand) + 1})
+                defs.append([rng.choice(vals)] if rng.random() < 0.3 else [])
+            tabs = [i for i in range(n) if params[i]['kind'] == 'table']
+            api = rng.choice(['run', 'run', 'join'])
+            st = {'kind': 'call', 'api': api, 'params': params, 'defs': defs, 'opts': rng.choice(OPTS) if api == 'run' else DEFAULT_OPTS,
+                  'cache': 'none', 'expiry': dict(ABSENT)}
+            if api == 'run' and has_last and tabs and rng.random() < 0.6:
+                if all(defs[i] for i in tabs):
+                    defs[tabs[0]] = []
+                st['cache'] = 'last'
+                st['expiry'] = 'deal'                      # expiries are dealt to the keys of the last result when the step is made
+                st['plan'] = [rng.choice(['absent', 'past', 'past', 'future', 'none']) for _ in range(rng.choice([1, 3]))]
+            hist.append({'step': st})
+            if api == 'run':
+                has_last = None if tabs else False          # a table came back if any key survived: known when the step is made
+        elif kind == 'editresult':
+            hist.append({'step': {'kind': 'editresult', 'rows': 'deal', 'v': rng.choice([v for v in vals if v[0] != 'n'])}})
+        else:
+            j = rng.randrange(m)
+            if kind == 'subset':
+                keep = [k for k in state[j] if rng.random() < 0.6]
+                state[j] = keep
+                hist.append({'step': {'kind': 'subset', 'obj': j + 1, 'keep': keep}})
+            else:
+                hist.append({'step': {'kind': kind, 'obj': j + 1, 'rows': [{'key': k, 'v': rng.choice(vals)} for k in sorted(state[j])]}})
+        if has_last is None:
+            has_last = True
+    return {'nk': nk, 'pool': pool, 'hist': hist}
+
+
+def session_case(job, o):
+    st = o['step']
+    d = {'api': 'session', 'kind': 'session', 'nk': o['nk'], 'at': o['at'], 'step': st['kind'], 'call': st.get('api'), 'cache': st.get('cache'),
+         'opts': st.get('opts'), 'forms': [t['form'] for t in job['sess']['pool']], 'alpha': o['alpha'], 'key_columns': on_of({'nk': o['nk']}, o['form']),
+         'tlc': 'expect' in job['sess']['hist'][0],
+         'steps': [h['step']['kind'] for h in job['sess']['hist']], 'sess': job['sess'], 'form': job['form'], 'salt': job['salt']}
+    return d
+
+
+def sessions(ctx, generated, nrand, label):
+    """S2C: every session TLC generated is replayed step by step, the outcome of every call compared with == against what TLC
+    printed for it; C2S: these and `nrand` longer randomly drawn sessions, every step with the pool read before and after it, are
+    judged by the trace specification (StepVerdict).  A session ends at its first rejected step."""
+    rng = random.Random(ctx.seed * 104729 + len(generated) + nrand)
+    today = datetime.date.today().toordinal()
+    sess = sorted(generated, key=lambda x: json.dumps(x, sort_keys=True))
+    jobs = [{'sess': x, 'form': sess_form(rng, x), 'salt': rng.randrange(1 << 30), 'sid': i} for i, x in enumerate(sess)]
+    for i in range(nrand):
+        x = rand_session(rng)
+        jobs.append({'sess': x, 'form': sess_form(rng, x), 'salt': rng.randrange(1 << 30), 'sid': len(sess) + i})
+    allobs = pmap_sessions(jobs)
+    flat = [o for obs in allobs for o in obs]
+    bad = dict(ctx.validate('Trace_Perdictable', flat))
+    ctx.evals += len(flat)
+    line, nfail, ncalls, nkept, nsame = 0, 0, 0, 0, 0
+    for job, obs in zip(jobs, allobs):
+        for n, o in enumerate(obs):
+            line += 1
+            clause = bad.get(line)
+            st = o['step']
+            differs = False
+            if st['kind'] == 'call':
+                ncalls += 1
+                exp = job['sess']['hist'][n].get('expect')
+                if exp is not None:              # S2C
+                    differs = not ((o['out'] in exp['outs'] or (o['same'] and {'kind': 'data'} in exp['outs'])) and bag(o['calls']) == bag(exp['calls']))
+                    ctx.traces += 0 if differs else 1
+                if o['out'].get('kind') == 'table':
+                    ctx.note(('session', json.dumps([o['pool'], o['last'], {k: v for k, v in st.items() if k not in ('shape', 'variant')}], sort_keys=True)))
+                    nkept += len(o['calls']) < len(o['out']['rows'])
+                    nsame += any(p['kind'] == 'table' and q['kind'] == 'table' and p['obj'] == q['obj'] for i, p in enumerate(st['params']) for q in st['params'][i + 1:])
+            if clause is None and not differs:
+                continue
+            if clause is None:
+                raise Machinery('S2C rejected a session step that Trace_Perdictable accepts: %s' % json.dumps(o)[:900])
+            if clause.startswith('harness_'):
+                raise Machinery('driver error %s on session step %s' % (clause, json.dumps(o)[:900]))
+            nfail += 1
+            ctx.violation(clause, session_case(job, o), {'observed': o.get('out'), 'calls': o.get('calls'), 'pool': o['pool'], 'pool_after': o['pool_after'],
+                                                      'expected': job['sess']['hist'][n].get('expect')})
+            line += len(obs) - n - 1                     # the session ends here
+            break
+    ctx.sample({'session_' + label: [{k: v for k, v in o.items() if k in ('step', 'out', 'calls', 'pool', 'pool_after')} for o in allobs[len(allobs) // 3]]})
+    ex = ctx.extra.setdefault('sessions', {})
+    ex[label] = {'generated_by_tlc': len(sess), 'random': nrand, 'steps': len(flat), 'calls': ncalls, 'calls_with_rows_kept_from_cache': nkept,
+                 'calls_with_one_table_under_two_names': nsame, 'rejected_sessions': nfail}
+
+
 def replay(ctx, body):
     """./check C20 --replay <file>: make the recorded call again and let the trace specification judge it"""
     case = body['case']
+    if case.get('api') == 'session':          # a session: made again from its first step, judged step by step
+        obs = observe_session({'sess': case['sess'], 'form': case['form'], 'salt': case.get('salt') or 0})
+        bad = ctx.validate('Trace_Perdictable', obs)
+        for i, o in enumerate(obs):
+            print(json.dumps({'step': o['step'], 'out': o.get('out'), 'calls': o.get('calls'), 'pool_after': o['pool_after']})[:1500])
+        print('verdict: %s' % (', '.join('step %d: %s' % b for b in bad) if bad else 'accepted'))
+        return 1 if bad else 0
     job = {'c': case['c'], 'api': case['api'], 'form': case['form'], 'salt': case.get('salt') or 0}
     if case.get('chained'):             # the second of two chained calls: make the first one again
         job.update({'c': dict(case['c'], data={'kind': 'absent', 'rows': [], 'v': ["n", 0]}, expiry={'kind': 'absent', 'rows': [], 'v': ["n", 0]}),
@@ -661,6 +1043,15 @@ def run(ctx):
     # why the spellings of the keys are enumerated: the join's mechanism on the key cells is the law when cells are matched by
     # rank (CellsJoinIsLaw, CacheJoinIsLaw above) and is NOT when the keys a defaulted input lacks are looked up as objects
     ctx.mc('MC_Perdictable', 'MC_Perdictable_identity.cfg', must_fail='ObjectLookupIsLaw', coverage=False, workers=1)
+    # sessions on caller-owned tables: the law of a session, the mechanism of _item that makes renamed copies against it, and
+    # (expected to fail) the mechanism that writes into the caller's table
+    ctx.mc('MC_PerdictableSess', 'MC_PerdictableSess_quick.cfg')
+    ctx.mc('MC_PerdictableSess', 'MC_PerdictableSess_inplace.cfg', must_fail='InPlaceIsLaw', coverage=False, workers=1)
+    if q:
+        gen = sorted(ctx.generate('MC_PerdictableSess', 'MC_PerdictableSess_gen_quick.cfg'), key=lambda x: json.dumps(x, sort_keys=True))
+        sessions(ctx, ctx.rng.sample(gen, min(1200, len(gen))), 150, 'quick')
+    else:
+        sessions(ctx, ctx.generate('MC_PerdictableSess', 'MC_PerdictableSess_gen_thorough.cfg'), 2000, 'thorough')
     if q:
         cases = sorted(ctx.generate('MC_Perdictable', 'MC_Perdictable_gen_quick.cfg'), key=canon)
         wide = [c for c in cases if c['size'][:3] == [3, 3, 1]]              # 3 inputs over 3 keys: a seeded sample in the quick tier
